@@ -132,8 +132,14 @@ func (c13Stream) Generate(rng *rand.Rand, n int, thorough bool) []Case {
 		if rng.Intn(4) == 0 && idle == 0 && stop == 0 && overlap == 0 {
 			blocked = 1
 		}
-		cs = append(cs, Case{Line: fmt.Sprintf("c13 sessions=%d pre=%d before=%d after=%d post=%d pipelined=%d idle=%d barrier=%d stop=%d overlap=%d linger=%d big=%d viadefault=%d blocked=%d", []int{1, 2, 4, 8}[rng.Intn(4)],
-			[]int{0, 0, 1, 3}[rng.Intn(4)], before, after, 1+rng.Intn(6), rng.Intn(2), idle, barrier, stop, overlap, linger, big, viadefault, blocked), Kind: "starttls"})
+		// the StartTLS handler panics right after Request.StartTLS has returned (every tenth quiet scenario): the
+		// connection ends, and whatever the server still sends is inside the tunnel
+		hpanic := 0
+		if rng.Intn(10) == 0 && idle == 0 && stop == 0 && overlap == 0 && blocked == 0 && linger == 0 && barrier == 0 {
+			hpanic = 1
+		}
+		cs = append(cs, Case{Line: fmt.Sprintf("c13 sessions=%d pre=%d before=%d after=%d post=%d pipelined=%d idle=%d barrier=%d stop=%d overlap=%d linger=%d big=%d viadefault=%d blocked=%d hpanic=%d", []int{1, 2, 4, 8}[rng.Intn(4)],
+			[]int{0, 0, 1, 3}[rng.Intn(4)], before, after, 1+rng.Intn(6), rng.Intn(2), idle, barrier, stop, overlap, linger, big, viadefault, blocked, hpanic), Kind: "starttls"})
 	}
 	return cs
 }
@@ -216,6 +222,13 @@ func (c13Stream) Impl(c Case) string {
 		stls = func(w *gldap.ResponseWriter, r *gldap.Request) {
 			inner(w, r)
 			time.Sleep(time.Duration(lg) * time.Millisecond)
+		}
+	}
+	if p["hpanic"] == "1" {
+		inner := stls
+		stls = func(w *gldap.ResponseWriter, r *gldap.Request) {
+			inner(w, r)
+			panic("StartTLS handler panic injected by the harness, after the upgrade")
 		}
 	}
 	if p["stop"] == "1" {
@@ -325,6 +338,20 @@ func (c13Stream) Impl(c Case) string {
 				hsBudget = time.Second
 			}
 			_ = tc.SetDeadline(time.Now().Add(hsBudget))
+			if p["hpanic"] == "1" {
+				// the handler panics on the server's side of the finished upgrade: the connection is going away; whatever
+				// still arrives is judged on the wire (TLS records only), not here
+				if tc.Handshake() == nil {
+					_ = tc.SetDeadline(time.Now().Add(3 * time.Second))
+					buf := make([]byte, 4096)
+					for {
+						if _, err := tc.Read(buf); err != nil {
+							break
+						}
+					}
+				}
+				return
+			}
 			if err := tc.Handshake(); err != nil {
 				fail("TLS handshake after StartTLS failed: %v", err)
 				return
@@ -439,14 +466,14 @@ func (c13Stream) Impl(c Case) string {
 				}
 			}
 			wantH := post + pre
-			if p["stop"] == "1" {
+			if p["stop"] == "1" || p["hpanic"] == "1" {
 				wantH = pre
 			}
 			if nes != wantH {
 				fail("conn %d: %d handlers for %d plain and %d tunnel requests", cid, len(es), pre, post)
 			}
 		}
-		if len(byConn) != k && !(p["stop"] == "1" && pre == 0) {
+		if len(byConn) != k && !((p["stop"] == "1" || p["hpanic"] == "1") && pre == 0) {
 			fail("%d connections served tunnel requests, want %d", len(byConn), k)
 		}
 	}
